@@ -218,6 +218,19 @@ def boundary_strings():
     add(" \t\n\r\v\f\u00a0\ufeff\u2028\u2029 -42.5e-1 \u3000\u2003")
     add(" " * 50 + "7")
     add(WS_ALL)
+    # very long digit strings (beyond what the host converts to an integer without complaint: 4300 digits)
+    for n in (309, 310, 400, 401, 1100, 4300, 4301, 5000, 20000):
+        add("1" * n)
+        add("-" + "9" * n)
+        add("0" * n + "7")
+        add("1" * n + ".5")
+        add("0." + "0" * n + "1")
+        add("1" * n + "e-" + str(n))
+        add("0x" + "f" * n)
+        add("0b" + "1" * n)
+        add("1e" + "9" * n)
+        add("1e-" + "9" * n)
+        add("-" + "0" * n)
     return out
 
 
